@@ -72,7 +72,7 @@ def run(ctx):
         run_harness(ctx, "vadt", ["c13", "--replay", ctx.replay, "--out", ctx.path("res.json")])
         res = json.load(open(ctx.path("res.json")))
         for v in res["violations"]:
-            report_violation(ctx, v)
+            report_violation(ctx, v, key=v.get("known_key"))
         write_evidence(ctx, "model_checking", {"states": 1, "transitions": 1, "traces_validated_against_impl": res["evaluations"],
                                                "samples": [json.load(open(ctx.replay)).get("case")]})
         return
@@ -110,8 +110,13 @@ def run(ctx):
         cases += uniq
     write_ndjson(ctx.path("cases.ndjson"), cases)
     res = harness_all(ctx, ctx.path("cases.ndjson"), ["--targets-per-case", 5 if ctx.quick else 40])
-    for v in res["violations"][:5]:
-        report_violation(ctx, v)
+    n_unknown = 0
+    for v in res["violations"]:
+        if v.get("known_key"):
+            report_violation(ctx, v, key=v["known_key"])
+        elif n_unknown < 5:
+            n_unknown += 1
+            report_violation(ctx, v)
     if res["targets_never_run"] or res["min_histories_per_target"] < 15:
         raise ToolError(f"coverage: targets never run {res['targets_never_run']}, min histories per target {res['min_histories_per_target']}")
     # known findings: minimal raw histories (no call discipline), each must still fail to be reported
